@@ -131,7 +131,31 @@ def model_full(ch, raw_ts, scaled_model=None):
     return ops.model_norm(ch, range(ch.count), raw_ts)
 
 
-def check_op(tf, w, op, full, tagp, mode, res=None):
+def daqmx_output_scaler(w, path):
+    """Scaler id whose raw values are the scaled data of a DAQmx channel whose only scaling is
+    NI_Number_Of_Scales (no NI_Scale[i]_Scale_Type entries); None when the channel is scaled otherwise / not at all."""
+    props = w.props.get(path, {})
+    if 'NI_Number_Of_Scales' not in props or any(k.endswith('_Scale_Type') for k in props):
+        return None
+    g = w.names[path][0]
+    from .. import fmt as _fmt
+    sid = props['NI_Number_Of_Scales'][1] - 1
+    return sid if sid in w.chans[path].scalers else None
+
+
+def op_full(w, ch, op, raw_ts):
+    """The normalised full array an op on channel ch is to be compared with (None = not judged)."""
+    if ch.type != 'daqmx':
+        return model_full(ch, raw_ts)
+    if op.get('op') == 'read_data' and op.get('scaled', True) is False:
+        return model_full(ch, raw_ts)
+    sid = daqmx_output_scaler(w, ch.path)
+    if sid is None:
+        return None
+    return ops.model_norm(ch, range(ch.count), raw_ts, scaler=sid)
+
+
+def check_op(tf, w, op, full, tagp, mode, res=None, keeper=None):
     """Run op on handle tf and compare with numpy indexing on `full` (normalised full array).
     Returns (violation or None, normalised library result or None, exception class name or None)."""
     n = full_len(full)
@@ -149,6 +173,8 @@ def check_op(tf, w, op, full, tagp, mode, res=None):
         return V(tagp + '.raises', '%s %s on %s (len %d): %s: %s' % (mode, label, op['ch'], n, exc, excobj),
                  op=op['op'], mode=mode, exc=exc), None, exc
     g = ops.norm(got)
+    if keeper is not None:
+        keeper.keep('%s %s on %s' % (mode, label, op['ch']), got, g)
     if exp[0] == 'idx1':
         e = scalar_of(full, exp[1])
     else:
